@@ -41,6 +41,7 @@ type World struct {
 	blockOK    bool
 	nondetSelect bool
 	onSelect   Value
+	onSelectBlockingOnly bool
 	inOnSelect bool
 	// coroutines
 	mode       int
@@ -86,6 +87,10 @@ type World struct {
 	schedFull  int
 	schedCap, schedAdmitted int
 	goSkipped  int
+	locks      map[string]int
+	pools      map[string]*poolState
+	ncut       int
+	bufCells   map[string]*bufCell
 	schemaExecs, schemaNotIdempotent int
 	goLog      []goLaunch // go statements met under vx.IgnoreGo (function name, receiver or first argument)
 	lenOf      map[int]*Term
